@@ -525,6 +525,8 @@ DOCUMENTED_FAULTS = ("missing_key_delimiter", "missing_key_missing", "missing_ke
 
 def classify(s, data, loaded):
     """which hypothesis of C16_roundtrip fails on a case the property statement covers"""
+    if len(s["fields"]) == 1 and "---" in out_texts(s, data)[0]:
+        return "C16:read_scsv:single-column-yaml-fence"
     if loaded is None:
         return "C16:write_scsv_header:scalar-breaks-yaml"
     fs, fs2 = s["fields"], loaded.get("fields", []) if isinstance(loaded, dict) else []
@@ -851,6 +853,8 @@ def prepare(impl, c):
             text = edit_file(np.random.default_rng(c["r"]), c["fault"], text, s)
             with open(path, "w") as f:
                 f.write(text)
+            c["edited_text"] = text
+            c["base_ok"] = r[0] == "OK"
             c["impl"] = impl.read(path)
         c["text"] = open(path, newline="").read()
         yl, cl = impl.split_file(path)
@@ -896,7 +900,7 @@ def run_coq(terms, tag):
     d = os.path.join(common.BUILD, "cases")
     os.makedirs(d, exist_ok=True)
     outs = []
-    procs = []
+    paths = []
     for k in range(0, len(terms), 250):
         path = os.path.join(d, f"C16_{tag}_{k // 250}.v")
         with open(path, "w") as f:
@@ -905,15 +909,17 @@ def run_coq(terms, tag):
             f.write(pool_definitions(terms[k:k + 250]))
             for t in terms[k:k + 250]:
                 f.write("Eval vm_compute in %s.\n" % t)
-        procs.append((path, len(terms[k:k + 250]), subprocess.Popen(
-            ["timeout", "1500", "coqc", "-noglob", "-Q", common.COQ, "PV", path], cwd=d, stdout=subprocess.PIPE,
-            stderr=subprocess.STDOUT, text=True)))
-    for path, n, p in procs:
-        out, _ = p.communicate()
-        got = re.findall(r'=\s*"([^"]*)"\s*:\s*string', out)
-        if p.returncode != 0 or len(got) != n:
-            raise RuntimeError(f"coqc on {path}: rc={p.returncode}, {len(got)} results for {n} cases\n{out[-1500:]}")
-        outs += got
+        paths.append((path, len(terms[k:k + 250])))
+    for g in range(0, len(paths), 4):            # at most 4 coqc at a time; long columns need a deep stack
+        procs = [(path, n, subprocess.Popen(
+            ["bash", "-c", f"ulimit -s unlimited 2>/dev/null || ulimit -s 1000000; exec timeout 1500 coqc -noglob -Q {common.COQ} PV {path}"],
+            cwd=d, stdout=subprocess.PIPE, stderr=subprocess.STDOUT, text=True)) for path, n in paths[g:g + 4]]
+        for path, n, p in procs:
+            out, _ = p.communicate()
+            got = re.findall(r'=\s*"([^"]*)"\s*:\s*string', out)
+            if p.returncode != 0 or len(got) != n:
+                raise RuntimeError(f"coqc on {path}: rc={p.returncode}, {len(got)} results for {n} cases\n{out[-1500:]}")
+            outs += got
     return outs
 
 
@@ -945,6 +951,32 @@ def schema_to_show(s):
         return "S" + v.encode().hex()
     return "S%s|S%s|%s" % (s["delimiter"].encode().hex(), s["missing"].encode().hex(),
                            ";".join("%s:S%s:%s" % (sy(f["name"]), f["type"].encode().hex(), sy(f["fill"])) for f in s["fields"]))
+
+
+def file_expect_scsv(c):
+    """edited files on which C16 demands the SCSV error from read_scsv"""
+    k, t = c.get("fault"), c.get("edited_text") or ""
+    if not c.get("base_ok"):
+        return False
+    if k in ("file_missing_key", "file_column_renamed"):
+        return t != "" and len(t.rsplit("---\n", 1)[1].split("\n")) > 2
+    if k == "file_numeric_without_fill":
+        return any(f.get("type") in ("integer", "float", "complex") for f in c["schema"]["fields"])
+    if k == "file_bad_type":
+        return "type: text" in t or "type: int\n" in t
+    return False
+
+
+def oracle_file(impl, text):
+    impl.n += 1
+    path = os.path.join(impl.tmp, f"f{impl.n}.scsv")
+    with open(path, "w") as f:
+        f.write(text)
+    r = impl.read(path)
+    os.unlink(path)
+    if r[0] == "READ-ERR" and r[1] == "SCSV":
+        return []
+    return [(None, f"read_scsv on a file whose header / header row violates the documented constraints did not raise SCSVError: {r[:2]}")]
 
 
 def compare(chk, cases, outs):
@@ -991,6 +1023,10 @@ def compare(chk, cases, outs):
             okc = (mr[0] == ir[0] == "ERR" and mr[1] == ir[1]) or \
                   (mr[0] == ir[0] == "OK" and mr[1][0] == ir[1] and same_cols(mr[1][1], ir[2]))
             chk.note_case(key, nontrivial=True, sample=None)
+            if file_expect_scsv(c):
+                count("file_refusal_expected", ir[:2] if ir[0] == "ERR" else "OK")
+                if ir[:2] != ("ERR", "SCSV"):
+                    unclassified.append((c, f"edited file ({c['fault']}) is not refused with SCSVError: {ir[:2]}"))
             if not okc:
                 bad.append((c, f"read_scsv on an edited file ({c['fault']}): implementation {ir[:2]}, model {m['R'][:120]}"))
             continue
@@ -1195,13 +1231,24 @@ def _run(chk, ok, br, tmp):
         if k not in reproducing:
             new += v
     chk.cov["open_findings_reproduced"] = sorted(reproducing)
+    chk.cov["unexcused_property_failures"] = [t for _, t in new[:10]]
     if ok and not bad and not new:
         return
     # ---- something broke: search for a failing input with the property oracle
     found = []
-    pool = [c for c, _ in new] + [c for c, _ in bad if c.get("kind") == "rt"] + [c for c in cases if c["kind"] == "rt"]
+    pool = [c for c, _ in new] + [c for c, _ in bad if c.get("kind") in ("rt", "file")] + [c for c in cases if c["kind"] in ("rt", "file")]
     seen = set()
     for c in pool:
+        if c["kind"] == "file":
+            if not file_expect_scsv(c):
+                continue
+            fails = oracle_file(impl, c["edited_text"])
+            if fails and ("file", c["fault"]) not in seen:
+                seen.add(("file", c["fault"]))
+                found.append((c, fails))
+                if len(found) >= 3:
+                    break
+            continue
         fails = oracle(impl, c["schema"], c["data"], c.get("fault"))
         if not fails:
             continue
@@ -1217,6 +1264,11 @@ def _run(chk, ok, br, tmp):
             break
     if found:
         for c, fails in found:
+            if c.get("kind") == "file":
+                chk.replay({"kind": "property-violation", "call": "pydrex.io.read_scsv", "input": {"file_text": c["edited_text"], "edit": c["fault"]},
+                            "observed": [t for _, t in fails], "required": "C16: SCSVError (see properties.jsonl)",
+                            "broken": chk.cov.get("broken_obligations", []), "disagreements": [m for _, m in bad[:3]]})
+                continue
             chk.replay({"kind": "property-violation", "call": "pydrex.io.save_scsv / read_scsv", "input": encode_case(c),
                         "observed": [t for _, t in fails], "required": "C16 (see properties.jsonl)",
                         "broken": chk.cov.get("broken_obligations", []), "disagreements": [m for _, m in bad[:3]]})
@@ -1254,8 +1306,11 @@ def replay(d):
     tmp = os.path.join(common.BUILD, f"tmp-{os.getpid()}")
     os.makedirs(tmp, exist_ok=True)
     try:
-        s, data, fault = decode_case(d["input"])
-        fails = oracle(Impl(tmp), s, data, fault)
+        if "file_text" in d["input"]:
+            fails = oracle_file(Impl(tmp), d["input"]["file_text"])
+        else:
+            s, data, fault = decode_case(d["input"])
+            fails = oracle(Impl(tmp), s, data, fault)
     finally:
         shutil.rmtree(tmp, ignore_errors=True)
     for _, f in fails:
